@@ -35,23 +35,35 @@ impl<'t> Worker<'t> {
     where
         S: AsRef<str>,
     {
+        #[cfg(vibrato_verif)]
+        crate::verif::yield_point("reset:entry");
         self.sent.clear();
         self.top_nodes.clear();
+        #[cfg(vibrato_verif)]
+        crate::verif::yield_point("reset:cleared");
         let input = input.as_ref();
         if !input.is_empty() {
             self.sent.set_sentence(input);
             self.sent.compile(self.tokenizer.dictionary().char_prop());
         }
+        #[cfg(vibrato_verif)]
+        crate::verif::yield_point("reset:exit");
     }
 
     /// Tokenizes the input sentence set in `state`,
     /// returning the result through `state`.
     pub fn tokenize(&mut self) {
+        #[cfg(vibrato_verif)]
+        crate::verif::yield_point("tokenize:entry");
         if self.sent.chars().is_empty() {
             return;
         }
         self.tokenizer.build_lattice(&self.sent, &mut self.lattice);
+        #[cfg(vibrato_verif)]
+        crate::verif::yield_point("tokenize:built");
         self.lattice.append_top_nodes(&mut self.top_nodes);
+        #[cfg(vibrato_verif)]
+        crate::verif::yield_point("tokenize:exit");
     }
 
     /// Gets the number of resultant tokens.
@@ -88,8 +100,12 @@ impl<'t> Worker<'t> {
     ///
     /// It will panic when [`Self::init_connid_counter()`] has never been called.
     pub fn update_connid_counts(&mut self) {
+        #[cfg(vibrato_verif)]
+        crate::verif::yield_point("counts:entry");
         self.lattice
             .add_connid_counts(self.counter.as_mut().unwrap());
+        #[cfg(vibrato_verif)]
+        crate::verif::yield_point("counts:exit");
     }
 
     /// Computes the computed occurrence probabilities of connection ids,
